@@ -31,7 +31,7 @@ func (f *fakeSource) Fetch(_ context.Context, pid peer.ID) (*model.ProviderInfo,
 	return nil, nil
 }
 func (f *fakeSource) FetchAll(context.Context) ([]*model.ProviderInfo, error) { return f.infos, nil }
-func (f *fakeSource) String() string                                           { return "fake" }
+func (f *fakeSource) String() string                                          { return "fake" }
 
 var (
 	mainID = fixture.Key("ed25519", 0).ID
@@ -75,8 +75,10 @@ type entry struct{ p, md int }
 
 type xset struct {
 	entries []entry
-	// mismatch: 0 matching, 1 one shorter, 2 one longer, 3 nil metadata list
+	// mismatch: 0 matching, 1 metadata list truncated to `keep` entries
+	// (keep < number of providers), 2 one longer, 3 nil metadata list
 	mismatch int
+	keep     int
 }
 
 func (x xset) String() string {
@@ -87,7 +89,7 @@ func (x xset) String() string {
 	s := "[" + strings.Join(l, " ") + "]"
 	switch x.mismatch {
 	case 1:
-		s += "-1md"
+		s += fmt.Sprintf("md[:%d]", x.keep)
 	case 2:
 		s += "+1md"
 	case 3:
@@ -114,8 +116,8 @@ func (x xset) metadatas() [][]byte {
 	}
 	switch x.mismatch {
 	case 1:
-		if len(out) > 0 {
-			out = out[:len(out)-1]
+		if x.keep < len(out) {
+			out = out[:x.keep]
 		}
 	case 2:
 		out = append(out, []byte("extra"))
@@ -205,8 +207,12 @@ func spec(r rec, ctxID, md []byte) []result {
 		return out
 	}
 	expand := func(x xset) {
-		for _, e := range x.entries {
+		have := len(x.metadatas())
+		for i, e := range x.entries {
 			own := mdBytes(e.md)
+			if i >= have {
+				own = nil // no entry in a shorter (or nil) metadata list: absent
+			}
 			if ids[e.p] == mainID && (len(own) == 0 || bytes.Equal(own, md)) {
 				continue // the provider's own entry adds no new metadata
 			}
@@ -280,8 +286,8 @@ func firstLine(s string) string {
 
 func TestCheck(t *testing.T) {
 	r := vp.New("C17", "exploration",
-		"provider records: chain-level lists = every sequence of length <=N over {main, X, Y} x per-entry metadata {nil, empty, equal to looked-up, different}; contextual sets for context IDs \"c\" and \"\" with the same alphabets (length <=M) and override on/off; metadata-list lengths {matching, one shorter, one longer, nil}; every record served directly and after a JSON round trip; lookups: context ID in {\"c\",\"d\",empty} x metadata {nil,\"m\"}. Non-trivial: records with at least one extended provider. Distinct = distinct (record, transport, lookup).",
-		"for records whose metadata list length differs from the provider list only 'results or error, no panic' is required",
+		"provider records: chain-level lists = every sequence of length <=N over {main, X, Y} x per-entry metadata {nil, empty, equal to looked-up, different}; contextual sets for context IDs \"c\" and \"\" with the same alphabets (length <=M) and override on/off; metadata-list lengths {matching, truncated to every shorter length, one longer, nil} for lists of up to 3 providers; every record served directly and after a JSON round trip; lookups: context ID in {\"c\",\"d\",empty} x metadata {nil,\"m\"}. Non-trivial: records with at least one extended provider. Distinct = distinct (record, transport, lookup).",
+		"records whose metadata list length differs from the provider list: an error is accepted; where results are produced they are held to the expansion rules with a provider that has no entry in the metadata list counting as 'no metadata of its own (absent)'; surplus metadata entries are ignored",
 		"records with two contextual sets for the same context ID are not generated",
 	)
 	defer func() {
@@ -348,8 +354,9 @@ func TestCheck(t *testing.T) {
 					r.Violation("GetResults:panic:metadata-list-mismatch:"+which, key, fmt.Sprintf("GetResults panicked for record %s lookup ctx=%q: %s", rkey, lk.ctx, firstLine(m)), nil)
 					continue
 				}
-				if rc.mismatched() {
-					r.Outcome("mismatch-no-panic")
+				if rc.mismatched() && err != nil {
+					// lists of different lengths: results or an error
+					r.Outcome("mismatch-error")
 					continue
 				}
 				if err != nil {
@@ -398,14 +405,35 @@ func TestCheck(t *testing.T) {
 		}
 	}
 	// E: metadata-list length mismatches on either level
-	mmSets := genSets(2, []int{mdNil, mdDiff})
+	// (every truncation length of the metadata list, one longer, and nil; where
+	// results are produced they follow the expansion rules with a missing entry
+	// counting as absent metadata)
+	mmKinds := []int{mdNil, mdDiff}
+	if thorough {
+		mmKinds = []int{mdNil, mdEqual, mdDiff}
+	}
+	mmSets := genSets(3, mmKinds)
+	other := xset{entries: []entry{{1, mdDiff}}}
 	for _, s := range mmSets {
-		for mm := 1; mm <= 3; mm++ {
+		var variants []xset
+		for keep := 0; keep < len(s.entries); keep++ {
+			x := s
+			x.mismatch, x.keep = 1, keep
+			variants = append(variants, x)
+		}
+		for mm := 2; mm <= 3; mm++ {
 			x := s
 			x.mismatch = mm
+			variants = append(variants, x)
+		}
+		for _, x := range variants {
 			run(rec{hasExt: true, chain: x})
-			run(rec{hasExt: true, chain: xset{entries: []entry{{1, mdDiff}}}, ctxs: []ctxSet{{"c", false, x}}})
+			run(rec{hasExt: true, chain: other, ctxs: []ctxSet{{"c", false, x}}})
 			run(rec{hasExt: true, chain: x, ctxs: []ctxSet{{"c", true, x}}})
+			// a mismatched contextual list followed by a complete chain-level
+			// list and the other way round (state must not leak between the levels)
+			run(rec{hasExt: true, chain: xset{entries: []entry{{2, mdNil}, {1, mdNil}}}, ctxs: []ctxSet{{"c", false, x}}})
+			run(rec{hasExt: true, chain: x, ctxs: []ctxSet{{"c", false, xset{entries: []entry{{2, mdDiff}}}}}})
 		}
 	}
 	t.Logf("violations: %d", r.Violations())
